@@ -28,6 +28,8 @@ pub struct GCase {
     pub lt_form: usize,
     /// the counterpart is written as a module-qualified path (`self::X<..>`)
     pub qual: bool,
+    /// the second lifetime parameter is declared with a bound (`'b: 'a`): bounds belong to the declaration only (seed C11-08)
+    pub lt_bound: bool,
     pub tags: Vec<String>,
 }
 
@@ -93,6 +95,7 @@ pub fn gen(ctx: &mut Ctx) -> Option<GCase> {
     let turbofish = mode != 4 && ctx.flag();
     let lt_form = if mode == 2 { ctx.choose(4) } else { 0 };
     let qual = mode != 4 && ctx.flag();
+    let lt_bound = params.iter().filter(|p| matches!(p, P::Lt(_))).count() == 2 && ctx.flag();
     let mut tags = vec![format!("mode={}", ["mirror", "concrete-args", "counterpart-lifetime", "counterpart-lifetime+own-params", "borrow-from-reference"][mode]), format!("where_instr={}", where_instr), format!("turbofish={}", turbofish)];
     for p in &params {
         tags.push(match p {
@@ -113,9 +116,12 @@ pub fn gen(ctx: &mut Ctx) -> Option<GCase> {
     if qual {
         tags.push("qualified-counterpart-path".into());
     }
+    if lt_bound {
+        tags.push("bounded-lifetime-parameter".into());
+    }
     tags.sort();
     tags.dedup();
-    Some(GCase { params, own_where, mode, where_instr, turbofish, lt_form, qual, tags })
+    Some(GCase { params, own_where, mode, where_instr, turbofish, lt_form, qual, lt_bound, tags })
 }
 
 impl GCase {
@@ -127,7 +133,7 @@ impl GCase {
             .params
             .iter()
             .map(|p| match p {
-                P::Lt(l) => l.to_string(),
+                P::Lt(l) => if self.lt_bound && *l == "'b" { "'b: 'a".to_string() } else { l.to_string() },
                 P::Ty { bound, default } => format!("T{}{}", if *bound { ": Clone" } else { "" }, if *default { " = i32" } else { "" }),
                 P::Const { default } => format!("const N: usize{}", if *default { " = 2" } else { "" }),
             })
